@@ -73,13 +73,21 @@ def tensor_body(c):
     Af, Bf = A.reshape(no, ni), B.reshape(no, ni)
     Hf = -onp.sin(a0).reshape(no, 1, 1) * Af[:, :, None] * Af[:, None, :] + 2 * Bf[:, :, None] * onp.eye(ni)[None]
     H = Hf.reshape(out_shape + in_shape + in_shape)
+    # a scalar function that ENDS in a full reduction of the array-valued one (read off the value seed: no extra draw)
+    tail = ["none", "none", "sum", "mean"][vseed % 4] if out_shape != () else "none"
+    if tail != "none":
+        f_arr, sc = f, (1.0 if tail == "sum" else 1.0 / no)
+        f = (lambda x, ns=anp: ns.sum(f_arr(x, ns))) if tail == "sum" else (lambda x, ns=anp: ns.mean(f_arr(x, ns)))
+        oax = tuple(range(len(out_shape)))
+        y0, J, H = y0.sum() * sc, J.sum(axis=oax) * sc, H.sum(axis=oax) * sc
+        out_shape, no = (), 1
     x = float(xa) if carrier == "pyfloat" else (onp.array(xa) if carrier == "array0d" else xa)
     scalar_out = out_shape == ()
     if op in ("grad", "value_and_grad", "grad_and_aux", "hessian", "make_hvp", "hessian_tensor_product") and not scalar_out:
         op = "jacobian"
     if op == "make_ggnvp" and not out_shape:
         op = "jacobian"
-    sample = {"in": list(in_shape), "out": list(out_shape), "op": op, "carrier": carrier, "vseed": vseed}
+    sample = {"in": list(in_shape), "out": list(out_shape), "op": op, "carrier": carrier, "vseed": vseed, "tail": tail}
     bucket = lambda k: f"C16|tensor|{op}|{k}"
     v = values.direction(vseed, in_shape, 3)
     vv = float(v) if carrier == "pyfloat" else v
@@ -118,6 +126,11 @@ def tensor_body(c):
             checks.append((gr, J, "grad_and_aux grad"))
             if not (isinstance(aux, tuple) and onp.array_equal(aux[0], aux0[0]) and aux[1] == 3.0):
                 return fail("primal_mismatch", f"aux returned as {aux!r}", bucket("aux"), sample=sample)
+            # the auxiliary value is handed back untouched also when it depends on the variable of an ENCLOSING differentiation
+            # (reverse and forward): d/ds of aux = s * f(x) + s * s is f(x) + 2 s
+            aux_of = lambda s_: autograd.grad_and_aux(lambda t: (f(t), s_ * f(t) + s_ * s_))(x)[1]
+            checks.append((autograd.grad(aux_of)(0.7), y0 + 1.4, "aux of grad_and_aux under an enclosing grad"))
+            checks.append((autograd.make_jvp(aux_of)(0.7)(1.0)[1], y0 + 1.4, "aux of grad_and_aux under an enclosing make_jvp"))
         elif op == "make_vjp":
             vjp, val = autograd.make_vjp(f)(x)
             want = onp.tensordot(g, J, len(out_shape)) if out_shape else g * J
@@ -158,8 +171,8 @@ def tensor_body(c):
             return err
     nontrivial = len(in_shape) >= 2 or len(out_shape) >= 2 or in_shape == () or out_shape == ()
     c.features.update(sample)
-    return ok(nontrivial=nontrivial, key=json.dumps([list(in_shape), list(out_shape), op, carrier, sample.get("tjp_rank"), sample.get("custom_g")]),
-              labels=["op=" + op, f"in_rank={len(in_shape)}", f"out_rank={len(out_shape)}"], sample=sample)
+    return ok(nontrivial=nontrivial, key=json.dumps([list(in_shape), list(out_shape), op, carrier, sample.get("tjp_rank"), sample.get("custom_g"), tail]),
+              labels=["op=" + op, f"in_rank={len(in_shape)}", f"out_rank={len(out_shape)}", "tail=" + tail], sample=sample)
 
 
 # ---- two differentiable arguments, extra positional / keyword parameters, argnum forms ------------------------------------------
